@@ -23,13 +23,43 @@ P = {'id': 'C02',
               'huffman_compressor_roundtrip',
               'huffman_tree_serialize_roundtrip',
               'huffman_size_u16_refuted',
+              'hybrid_compressor_roundtrip',
               'realtime_block_roundtrip',
               'realtime_tag_names_producer',
               'realtime_batch_roundtrip',
               'adaptive_roundtrip',
               'adaptive_history_total',
               'adaptive_zero_interval_refuted',
-              'realtime_stale_block_limit'],
+              'realtime_stale_block_limit',
+              'simd_copy_is_lz_copy',
+              'simd_copy_periodic',
+              'simd_tokens_roundtrip',
+              'simd_tokens_padding_err',
+              'simd_decode_padding_refuted',
+              'simd_stream_roundtrip',
+              'simd_lz77_roundtrip',
+              'simd_covers_unless_early',
+              'simd_find_never_fuel',
+              'simd_token_defined',
+              'simd_compress_defined',
+              'simd_reconstruct_fast_eq',
+              'simd_decompress_fast_eq',
+              'simd_lz77_literal_refuted',
+              'simd_lz77_rle_refuted',
+              'simd_lz77_padding_refuted',
+              'simd_lz77_early_termination_refuted',
+              'simd_lz77_roundtrip_g',
+              'pazip_sequential_roundtrip',
+              'pazip_compress_roundtrip',
+              'pazip_compress_roundtrip_real',
+              'pazip_answer_ok_guarded',
+              'pazip_guarded_candidates_fit',
+              'pazip_unguarded_candidate_unfit',
+              'pazip_far2long_len65536_refuted',
+              'pazip_blockwise_old_refuted',
+              'pazip_global_guard_needed',
+              'pazip_compress_as_replay',
+              'pazip_choose_type_true_match'],
  'coq_deps': ['C01'],
  'trusted': ['modelled (M+S): src/compression/dict_zip/compression_types.rs (CompressionType::supports, Match::validate, BitWriter, BitReader, '
              'encode/decode_variable_length, encode_match, decode_match, encode_matches, decode_matches) bit-exact; src/compression/mod.rs '
